@@ -87,7 +87,8 @@ def _case(rng):
         preds = {}
         for k in ('greater', 'greater_equal', 'less', 'less_equal', 'equal'):
             if rng.random() < 0.35:
-                preds[k] = rng.randint(-5, 5)
+                # whole and half-integer bounds (also against integer variables); stored as 'n/d' when fractional
+                preds[k] = rng.randint(-5, 5) if rng.random() < 0.6 else '%d/2' % (2 * rng.randint(-4, 4) + 1)
         where = None
         cand = [v for v in spec['vars'] if v['dims'] and v['name'] not in coords]
         if cand and rng.random() < 0.5:
@@ -135,12 +136,35 @@ def _case(rng):
             tvv['data'] = [None if x is None else int(rng.randint(-6, 6)) for x in tvv['data']]
         if rng.random() < 0.5:
             e = ['bin', 'div', e, ['lit', '2']]
+    if rng.random() < 0.25:
+        # a global attribute with the name of a variable of the expression (legal in netCDF: P0 of hybrid-sigma files)
+        spec['attrs'] = list(spec['attrs']) + [rng.choice(_all_vars(e))]
     return dict(kind=kind, spec=spec, expr=e, target=target, coords=coords, inplace=inplace)
+
+
+def _chain_case(rng):
+    """two operations in a row (file arithmetic and/or mask) on files with declared coordinate variables: oracle only"""
+    while True:
+        spec = _base(rng)
+        dimnames = {d[0] for d in spec['dims']}
+        coords = [v['name'] for v in spec['vars'] if v['name'] in dimnames]
+        if coords or rng.random() < 0.2:
+            break
+    specs = []
+    for i in range(3):
+        si = copy.deepcopy(spec)
+        for v in si['vars']:
+            if v['name'] not in coords:
+                v['data'] = _vals(rng, len(v['data']), v['dtype'] == 'i', v['masked'])
+        specs.append(si)
+    steps = [rng.choice([['bin', 'add'], ['bin', 'sub'], ['bin', 'mul'], ['mask', rng.choice(['greater', 'less']), rng.randint(-3, 3)]])
+             for _ in range(2)]
+    return dict(kind='chain', specs=specs, steps=steps, coords=coords)
 
 
 def gen(rng, tier):
     n = 300 if tier == 'quick' else 10000
-    return [_case(rng) for _ in range(n)]
+    return [_case(rng) for _ in range(n)] + [_chain_case(rng) for _ in range(n // 6)]
 
 
 def _py(e):
@@ -173,6 +197,18 @@ def _flat(e):
 def impl(case):
     try:
         with lib.pnc_warnings():
+            if case['kind'] == 'chain':
+                fs = [pfile.build(sp) for sp in case['specs']]
+                for f in fs:
+                    f.setCoords(case['coords'])
+                o = fs[0]
+                with np.errstate(all='ignore'):
+                    for i, st in enumerate(case['steps']):
+                        if st[0] == 'bin':
+                            o = {'add': operator.add, 'sub': operator.sub, 'mul': operator.mul}[st[1]](o, fs[i + 1])
+                        else:
+                            o = o.mask(**{st[1]: st[2]})
+                return dict(obs=pfile.observe(o), coords_after=list(o.getCoords()))
             if case['kind'] == 'binop':
                 f1, f2 = pfile.build(case['f1']), pfile.build(case['f2'])
                 f1.setCoords(case['coords'])
@@ -182,7 +218,7 @@ def impl(case):
             elif case['kind'] == 'mask':
                 f = pfile.build(case['spec'])
                 f.setCoords(case['coords'])
-                kw = dict(case['preds'])
+                kw = {k: (float(Fraction(v)) if isinstance(v, str) else v) for k, v in case['preds'].items()}
                 w = case['where']
                 if w:
                     shape = [dict((d[0], d[1]) for d in case['spec']['dims'])[k] for k in w['dims']]
@@ -203,6 +239,8 @@ def impl(case):
 
 def to_line(case, res):
     co = '.'.join(case['coords']) or '-'
+    if case['kind'] == 'chain':
+        return 'c06 nop'            # no model question: two modelled steps in a row, judged by the oracle
     if case['kind'] == 'binop':
         return 'c06 binop %s %s %s %s' % (case['op'], co, ' '.join(pfile.encode(case['f1'])), ' '.join(pfile.encode(case['f2'])))
     if case['kind'] == 'mask':
@@ -222,6 +260,8 @@ def _strip_flags(text):
 
 
 def agree(case, out, res):
+    if case['kind'] == 'chain':
+        return None
     if 'err' in res:
         return None if out.startswith('err') else 'impl raised %s (%s), model %s' % (res['err'], res.get('msg'), out[:80])
     if not out.startswith('ok '):
@@ -280,6 +320,27 @@ def oracle(case, res):
             return None     # integers to negative powers etc. are numpy errors, not generated on purpose
         return 'raised %s %s' % (res['err'], res.get('msg'))
     got = pfile.parse_obs(res['obs'])
+    if case['kind'] == 'chain':
+        for vi, v in enumerate(case['specs'][0]['vars']):
+            g = got['vars'].get(v['name'])
+            if g is None:
+                return 'variable %s disappeared' % v['name']
+            want = np.ma.masked_array(_np(case['specs'][0], v))
+            if v['name'] not in case['coords']:
+                with np.errstate(all='ignore'):
+                    for i, st in enumerate(case['steps']):
+                        if st[0] == 'bin':
+                            b = np.ma.masked_array(_np(case['specs'][i + 1], case['specs'][i + 1]['vars'][vi]))
+                            want = _mask_invalid({'add': operator.add, 'sub': operator.sub, 'mul': operator.mul}[st[1]](want, b))
+                        else:
+                            vals = np.ma.getdata(want)
+                            want = np.ma.masked_array(vals, mask=np.ma.getmaskarray(want) | ((vals > st[2]) if st[1] == 'greater' else (vals < st[2])))
+            d = _cmp(v['name'], g, want)
+            if d:
+                return 'after %s: %s%s' % (case['steps'], d, ' (a declared coordinate variable: passed through from the left operand)' if v['name'] in case['coords'] else '')
+        if sorted(res['coords_after']) != sorted(case['coords']):
+            return 'after %s the result declares coordinates %s, the operands %s' % (case['steps'], res['coords_after'], case['coords'])
+        return None
     if case['kind'] == 'binop':
         f2v = {v['name']: v for v in case['f2']['vars']}
         for v in case['f1']['vars']:
@@ -301,7 +362,7 @@ def oracle(case, res):
         spec = case['spec']
         dl = {d[0]: d[1] for d in spec['dims']}
         w = case['where']
-        p = case['preds']
+        p = {k: (float(Fraction(x)) if isinstance(x, str) else x) for k, x in case['preds'].items()}
         for v in spec['vars']:
             g = got['vars'].get(v['name'])
             if g is None:
@@ -380,6 +441,8 @@ def witnesses():
 
 
 def nontrivial(case, res):
+    if case['kind'] == 'chain':
+        return bool(case['coords'])
     if case['kind'] == 'binop':
         return any(None in v['data'] or 0 in v['data'] for v in case['f2']['vars'])
     if case['kind'] == 'mask':
